@@ -32,6 +32,9 @@ func encValue(o object.Object) string {
 	case *object.Integer:
 		return "i" + strconv.FormatInt(v.Value, 10)
 	case *object.Float:
+		if math.IsNaN(v.Value) {
+			return "fNaN" // NaN payloads are not compared
+		}
 		return fmt.Sprintf("f%016x", math.Float64bits(v.Value))
 	case *object.String:
 		return "s" + hx(v.Value)
@@ -93,6 +96,9 @@ func decValue(s string) object.Object {
 		n, _ := strconv.ParseInt(s[1:], 10, 64)
 		return &object.Integer{Value: n}
 	case 'f':
+		if s == "fNaN" {
+			return &object.Float{Value: math.NaN()}
+		}
 		b, _ := strconv.ParseUint(s[1:], 16, 64)
 		return &object.Float{Value: math.Float64frombits(b)}
 	case 's':
@@ -478,6 +484,11 @@ func encVars(e *evalfilter.Eval) string {
 
 func runHistory(c kv) string {
 	src := unhex(c["script"])
+	if c["tz"] != "" {
+		os.Setenv("TZ", c["tz"])
+	} else {
+		os.Unsetenv("TZ")
+	}
 	e := evalfilter.New(src)
 	tl := &traceLog{}
 	ol := &oracleLog{facts: map[string]bool{}}
